@@ -37,7 +37,7 @@ def wf(x, np):
     if exact and (up, low, pr) != exp: return 'upper/lower/precision are not max code*2^-n_frac, min code*2^-n_frac, 2^-n_frac: %r' % ((str(up), str(low), str(pr)),)
     return None
 
-OPS = ['ctor', 'ctor_raw', 'ctor_dtype', 'ctor_like', 'ctor_like_scaled', 'best_sizes', 'set', 'call', 'setitem', 'resize', 'like', 'add', 'sub', 'mul', 'const', 'div', 'floordiv', 'mod', 'neg', 'abs', 'lshift', 'rshift', 'invert', 'and', 'getitem', 'sum', 'cumsum', 'dot', 'max', 'transpose', 'equal', 'conj', 'resize_rejected']
+OPS = ['ctor', 'ctor_raw', 'ctor_dtype', 'ctor_like', 'ctor_like_scaled', 'best_sizes', 'set', 'call', 'setitem', 'resize', 'like', 'add', 'sub', 'mul', 'const', 'div', 'floordiv', 'mod', 'neg', 'abs', 'lshift', 'rshift', 'invert', 'and', 'getitem', 'sum', 'cumsum', 'dot', 'max', 'transpose', 'equal', 'conj', 'resize_rejected', 'minmax_out']
 
 def A_fmt(z): return (bool(z.signed), int(z.n_word), int(z.n_frac))
 def rand_fmt(rng):
@@ -123,6 +123,11 @@ def run_program(rng, res, pid):
                     if np.iscomplexobj(new.val) or lib.codes_of(new) != lib.codes_of(w) or A_fmt(new) != A_fmt(w):
                         res.fail({'program': pid, 'log': log, 'object': -1, 'fmt': A_fmt(w), 'code': lib.codes_of(w)}, 'C02: the conjugate of a real object is not that value again in the same format (real codes inside the range)', expected=(A_fmt(w), lib.codes_of(w)), got=(A_fmt(new), repr(new.val)[:80])); return
                     new = None       # (not added to the pool: its word may be wider than the pool's formats, whose limits are compared as doubles)
+                elif op == 'minmax_out':
+                    # the extreme of an array stored through out= into an object of the same sizes and the OTHER signedness (or one bit narrower)
+                    if np.asarray(x.val).ndim > 0 and not np.iscomplexobj(x.val) and 2 <= x.n_word <= 40:
+                        o_ = fx.Fxp(0, not x.signed, max(1, x.n_word - rng.choice([0, 0, 1])), x.n_frac, overflow=rng.choice(OMODES))
+                        new = rng.choice([lambda: np.min(x, out=o_), lambda: np.max(x, out=o_), lambda: x.min(out=o_), lambda: x.max(out=o_)])(); nontriv = True
                 elif op == 'resize_rejected':
                     # a resize that is rejected (dtype= together with another size parameter) leaves the object as it was
                     before = (A_fmt(x), lib.codes_of(x) if not np.iscomplexobj(x.val) else None, x.dtype)
